@@ -79,7 +79,7 @@ Print Assumptions C05_voted_keys_have_records.
 (* non-vacuity: a concrete configuration satisfying the hypotheses and a history with a transfer, a registration,
    a vote, a notary deposit and a refused over-balance transfer; the reached state is not the trivial one *)
 Definition ex_cfg : config :=
-  mkCfg [1;2;3]%N [0;1;2]%N 2 [KPlain;KPlain;KPlain;KPlain;KNotary;KNeo;KGas] 4 5 6 5200000000000000 true true true true.
+  mkCfg [1;2;3]%N [0;1;2]%N 2 [KPlain;KPlain;KPlain;KPlain;KNotary;KNeo;KGas] 4 5 6 5200000000000000 true true true true true.
 Definition ex_blocks : list (list tx) :=
   [ [ mkTx 0 100000000 1000000 [] (ONeoT 0 1 5000000) true (Some true);
       mkTx 0 100000000 1000000 [] (OGasT 0 1 300000000000 DNone) true (Some true);
